@@ -1124,6 +1124,50 @@ func genC10(d *Draw) Case {
 		}
 		c.Meta["kinds"] = 1
 	}
+	if !subHost && !two && !loop && !pre && d.N(6) == 5 {
+		// the event comes the moment the client sees the request of the task behind the host - the host has completed -
+		// while a slow subscriber holds the tracer (and whatever the engine still has to say about the host) up: it
+		// must find the boundary events switched off
+		var first EvPlan
+		for _, n := range g.allNodes() {
+			if n.Kind == "boundary" && len(n.Events) == 1 && n.Events[0].Ref == "sB1" {
+				first = EvPlan{Kind: n.Events[0].Kind, Ref: "sB1"}
+			}
+		}
+		first.Own, first.Exact = true, true
+		c.ExtraObs = 1
+		c.SlowAll = true
+		c.Hold = d.N(3)
+		if d.Bool() {
+			first.Prompt, first.AfterTask = true, "N"
+			c.SlowObsMs = 1 + d.N(3)
+			c.Prog.Desc += " [only event: sB1 the moment N's request is seen, behind a slow subscriber]"
+		} else {
+			// ... or a little after the host's answer was taken, while a subscriber that pauses for a long time per
+			// trace keeps the tracer (and whatever the engine still has to say about the host) stuck
+			first.AfterAnswer, first.DelayMs = "H", 1+d.N(5)
+			c.SlowObsMs = 40 + 20*d.N(4)
+			c.Hold = 2
+			// a burst of events that match nothing fills the way from the engine to the slow subscriber (every one of
+			// them is reported by the listening boundary event); the host is answered right behind the burst
+			nf := 8 + d.N(16)
+			var fill []EvPlan
+			for i := 0; i < nf; i++ {
+				fill = append(fill, EvPlan{Kind: "signal", Ref: "sX"})
+			}
+			fill[0].First, fill[0].Burst = true, nf-1
+			fill[nf-1].ThenAnswer = true
+			c.Events = append(fill, first)
+			c.Prog.Desc += fmt.Sprintf(" [a burst of %d strangers, H answered right behind it, sB1 %d ms after H's answer; a subscriber pausing %d ms per trace]", nf, first.DelayMs, c.SlowObsMs)
+			c.Meta["lateEvent"] = 2
+			nestEvents(d, c)
+			return c
+		}
+		c.Events = []EvPlan{first}
+		c.Meta["lateEvent"] = 1
+		nestEvents(d, c)
+		return c
+	}
 	nestEvents(d, c)
 	if !subHost && !two && d.N(3) == 2 {
 		// the host's answer carries an error: without handler or with a skip decision the token leaves the host
@@ -1239,6 +1283,8 @@ func checkC10(cc Case, r *simrt.Result) *Outcome {
 	probe(o, "message-escalation-or-error-boundary-events", c.Meta["kinds"] == 1)
 	probe(o, "event-nodes-inside-sub-process", c.Meta["nested"] > 0)
 	probe(o, "host-answered-with-error", c.Meta["hosterr"] == 1)
+	probe(o, "event-right-after-the-host-completed-behind-a-slow-subscriber", c.Meta["lateEvent"] == 1)
+	probe(o, "event-right-after-the-host's-answer-tracer-stuck-behind-a-subscriber", c.Meta["lateEvent"] == 2)
 	probe(o, "host-re-entered-through-loop", c.Meta["loop"] == 1)
 	probe(o, "event-burst", c.Meta["burst"] == 1)
 	probe(o, "clean-stratum-run", len(o.Tags) == 0 && fired > 0)
